@@ -148,3 +148,31 @@ Print Assumptions reg_wf_advance.
 Theorem reg_wf_latch : forall c d e s, reg_wf c s -> reg_wf c (reg_latch c d e s).
 Proof. exact NodeSemRefine.reg_wf_latch. Qed.
 Print Assumptions reg_wf_latch.
+
+(* ------------------------------------------------------------------ *)
+(* circuit level: the congruence lifted over the evaluation order and over cycles
+   (NetRefine.v over the cycle semantics NetDefs.v that C01's trace tie validates against the
+   real simulator) *)
+From Gatery Require Import NetDefs NetRefine.
+
+(* for EVERY netlist, schedule, initial register contents and stimulus sequences that never
+   contradict each other, the pin values never contradict each other in any cycle *)
+Theorem C08_circuit : forall nl sc s0 s0' sigma sigma',
+  st_wf nl s0 -> st_wf nl s0' -> st_rel s0 s0' ->
+  (forall t, ins_rel (sigma t) (sigma' t)) ->
+  forall t, Forall2 bv_compat (out_from nl sc s0 sigma t) (out_from nl sc s0' sigma' t).
+Proof. exact run_compat. Qed.
+Print Assumptions C08_circuit.
+
+(* the property's wording: making the stimuli more defined (a concretisation of the undefined
+   input bits) can never flip a pin bit that the abstract run reports as defined *)
+Theorem C08_concretisation : forall nl sc sigma sigma',
+  (forall t, Forall2 bv_le (sigma t) (sigma' t)) ->
+  forall t, Forall2 bv_compat (out_at nl sc sigma t) (out_at nl sc sigma' t).
+Proof. exact run_concretisation. Qed.
+Print Assumptions C08_concretisation.
+
+(* the power-on state satisfies the width invariant the theorem asks of initial states *)
+Theorem C08_power_on_wf : forall nl, st_wf nl (power_on nl).
+Proof. exact power_on_wf. Qed.
+Print Assumptions C08_power_on_wf.
